@@ -154,28 +154,6 @@ fn shape_trunc_push2_mid() {
 // independent seeded mutation -- skip length taken from OPCODE_INFO_JUMPTABLE[..].immediate_size() -- survived
 // the PUSH/DUP-only shapes.)  All bytes concrete; code = op JD JD  op' JD JD ...: an opcode that wrongly swallows
 // 1 or 2 (or more) bytes loses the destinations behind it, the walk resynchronises on the next JUMPDEST.
-
-/// the i-th byte value (i in 0..223) that is neither JUMPDEST (0x5b) nor PUSH1..PUSH32 (0x60..0x7f)
-fn nth_nonpush(i: usize) -> u8 {
-    if i < 0x5b {
-        i as u8
-    } else if i < 0x5f {
-        (i + 1) as u8
-    } else {
-        (i + 33) as u8
-    }
-}
-/// code of N triples `op JD JD` for the non-PUSH byte values number first .. first+N
-fn triples<const L: usize>(first: usize) -> [u8; L] {
-    let mut code = [JD; L];
-    let mut k = 0;
-    while 3 * k < L {
-        code[3 * k] = nth_nonpush(first + k);
-        k += 1;
-    }
-    code
-}
-
 /// RJUMP JD JD RJUMPV JD JD   (0xE0: 2 immediate bytes in EOF, 0xE2: 1)
 #[kani::proof]
 #[kani::unwind(42)]
@@ -192,44 +170,7 @@ fn shape_eof_imm_all() {
         1,
     );
 }
-// ALL 223 byte values that are neither JUMPDEST nor PUSH1..PUSH32, in 8 harnesses of 28 (the last: 27) triples
-#[kani::proof]
-#[kani::unwind(120)]
-fn shape_nonpush_ops_0() {
-    check::<84>(triples::<84>(0), 1);
-}
-#[kani::proof]
-#[kani::unwind(120)]
-fn shape_nonpush_ops_1() {
-    check::<84>(triples::<84>(28), 1);
-}
-#[kani::proof]
-#[kani::unwind(120)]
-fn shape_nonpush_ops_2() {
-    check::<84>(triples::<84>(56), 1);
-}
-#[kani::proof]
-#[kani::unwind(120)]
-fn shape_nonpush_ops_3() {
-    check::<84>(triples::<84>(84), 1);
-}
-#[kani::proof]
-#[kani::unwind(120)]
-fn shape_nonpush_ops_4() {
-    check::<84>(triples::<84>(112), 1);
-}
-#[kani::proof]
-#[kani::unwind(120)]
-fn shape_nonpush_ops_5() {
-    check::<84>(triples::<84>(140), 1);
-}
-#[kani::proof]
-#[kani::unwind(120)]
-fn shape_nonpush_ops_6() {
-    check::<84>(triples::<84>(168), 1);
-}
-#[kani::proof]
-#[kani::unwind(120)]
-fn shape_nonpush_ops_7() {
-    check::<81>(triples::<81>(196), 1);
-}
+// NOT affordable (measured 2026-09-22, load average 20-30): a family over ALL 223 byte values that are neither
+// JUMPDEST nor PUSH1..PUSH32.  Cost grows with the number of marked JUMPDESTs and observed positions, not only per
+// harness: 11 opcodes x (op JD JD) took 2478 s; 27 opcodes x (op JD JD), L = 81, did not finish in 48 min; 28 x (op JD)
+// observed through the raw table bytes was at 7.9 GB after 18 min.  Roughly 2-4 min per opcode => 8-14 h for all.
